@@ -35,7 +35,7 @@ def _tok(kind, x):
 def gen_cases(rng, tier, h):
     mode = h["mode"]
     kk, vk = ("i" if mode[0] == "t" else mode[0]), mode[1]
-    n = 400 if tier == "quick" else 6000
+    n = 400 if tier == "quick" else 40000
     cases = []
     for _ in range(n):
         c = ["fm_new " + ("0" if vk == "i" else "s")]
